@@ -1,13 +1,555 @@
-//! c12: bounded stand-in (E3) -- see DESIGN.md section 5
-#![allow(dead_code, unused_imports)]
+//! C12: page enumeration is the depth-first, left-to-right order of the page tree (numbered 1..n);
+//! on malformed trees it still terminates and yields only page objects.
+//!
+//! Oracle (independent of the library): a page tree is written as a string over { 'p' = page leaf,
+//! '(' ... ')' = intermediate node }; the expected enumeration is the list of the ids assigned to the 'p'
+//! characters, left to right. For malformed documents the module's own resolver (`is_page`, `reachable`)
+//! decides what a page object is and which ids hang under the root.
+#![allow(dead_code)]
+use crate::c03::{obj_from_json, obj_json};
 use crate::common::*;
-use crate::gen::*;
+use lopdf::{Dictionary, Document, Object, ObjectId, Stream};
+use rayon::prelude::*;
 use serde_json::{json, Value};
+use std::collections::{BTreeSet, HashSet};
+use std::panic::{catch_unwind, AssertUnwindSafe};
+use std::sync::atomic::{AtomicU64, Ordering};
+use std::sync::Arc;
+use std::time::{Duration, Instant};
 
-pub fn run(_thorough: bool) -> Report {
-    Report::new("not built yet", false)
+const STEP: &str = "c12-pages";
+const ITEM_CAP: usize = 100_000; // an enumeration yielding more items than this is reported as non-terminating
+const HANG_MS: u64 = 15_000; // a single case running longer than this is reported as non-terminating
+const DEPTH_LIMIT: usize = 256; // the library's documented PAGE_TREE_DEPTH_LIMIT
+
+// ---------------------------------------------------------------------------------------------------------
+// a case: a document plus (for well-formed trees) the exact expected enumeration
+// ---------------------------------------------------------------------------------------------------------
+pub struct Case {
+    pub desc: String,
+    pub doc: Document,
+    pub expect: Option<Vec<ObjectId>>, // Some = well-formed: exact order demanded; None = malformed: weak obligations
+    pub child: bool,                   // run in a child process (may abort the process)
 }
 
-pub fn replay(_v: &Value) -> Result<(), String> {
-    Err("no replay".into())
+fn d(entries: Vec<(&str, Object)>) -> Dictionary {
+    let mut x = Dictionary::new();
+    for (k, v) in entries { x.set(k.as_bytes().to_vec(), v); }
+    x
 }
+fn nm(s: &str) -> Object { Object::Name(s.as_bytes().to_vec()) }
+fn rf(id: ObjectId) -> Object { Object::Reference(id) }
+fn r0(n: u32) -> Object { Object::Reference((n, 0)) }
+fn refs(ids: &[ObjectId]) -> Object { Object::Array(ids.iter().map(|i| rf(*i)).collect()) }
+
+fn new_doc() -> Document { Document::with_version("1.5") }
+fn put(doc: &mut Document, id: ObjectId, o: Object) {
+    doc.objects.insert(id, o);
+    if id.0 > doc.max_id { doc.max_id = id.0; }
+}
+
+// ---------------------------------------------------------------------------------------------------------
+// own model of "page object" and "hangs under the root" (does not call Document::get_object & co.)
+// ---------------------------------------------------------------------------------------------------------
+fn resolve<'a>(doc: &'a Document, mut o: &'a Object) -> Option<&'a Object> {
+    let mut seen: HashSet<ObjectId> = HashSet::new();
+    while let Object::Reference(id) = o {
+        if !seen.insert(*id) { return None; }
+        o = doc.objects.get(id)?;
+    }
+    Some(o)
+}
+fn dget<'a>(dict: &'a Dictionary, key: &[u8]) -> Option<&'a Object> {
+    dict.iter().find(|(k, _)| k.as_slice() == key).map(|(_, v)| v)
+}
+/// the id denotes (possibly through a chain of indirect references) a dictionary with /Type /Page
+fn is_page(doc: &Document, id: ObjectId) -> bool {
+    match doc.objects.get(&id).and_then(|o| resolve(doc, o)) {
+        Some(Object::Dictionary(dict)) => matches!(dget(dict, b"Type"), Some(Object::Name(n)) if n.as_slice() == b"Page"),
+        _ => false,
+    }
+}
+/// every id that occurs as a reference element of a Kids array of anything reachable from the catalog's Pages
+/// entry (permissive: node types are ignored, streams count as dictionaries)
+fn reachable(doc: &Document) -> BTreeSet<ObjectId> {
+    let mut out = BTreeSet::new();
+    let root = match dget(&doc.trailer, b"Root").and_then(|o| resolve(doc, o)) {
+        Some(Object::Dictionary(c)) => dget(c, b"Pages"),
+        Some(Object::Stream(s)) => dget(&s.dict, b"Pages"),
+        _ => None,
+    };
+    let mut work: Vec<&Object> = root.into_iter().collect();
+    let mut visited: HashSet<ObjectId> = HashSet::new();
+    while let Some(o) = work.pop() {
+        let node = match resolve(doc, o) { Some(n) => n, None => continue };
+        let dict = match node { Object::Dictionary(x) => x, Object::Stream(s) => &s.dict, _ => continue };
+        let kids = match dget(dict, b"Kids").and_then(|k| resolve(doc, k)) { Some(Object::Array(a)) => a, _ => continue };
+        for k in kids {
+            if let Object::Reference(id) = k {
+                out.insert(*id);
+                if visited.insert(*id) { work.push(k); }
+            } else {
+                work.push(k);
+            }
+        }
+    }
+    out
+}
+
+// ---------------------------------------------------------------------------------------------------------
+// the executable contract
+// ---------------------------------------------------------------------------------------------------------
+pub type Fails = Vec<(String, String, String)>; // (obligation, detail, observed)
+
+fn pmsg(e: Box<dyn std::any::Any + Send>) -> String {
+    if let Some(s) = e.downcast_ref::<String>() { s.clone() } else if let Some(s) = e.downcast_ref::<&str>() { s.to_string() } else { "panic".into() }
+}
+fn ids_str(v: &[ObjectId]) -> String {
+    let mut s: Vec<String> = v.iter().take(40).map(|i| format!("{} {}", i.0, i.1)).collect();
+    if v.len() > 40 { s.push(format!("... ({} ids)", v.len())); }
+    format!("[{}]", s.join(", "))
+}
+fn order_detail(api: &str, got: &[ObjectId], want: &[ObjectId]) -> String {
+    let k = got.iter().zip(want.iter()).position(|(a, b)| a != b).unwrap_or(got.len().min(want.len()));
+    format!("{}: enumeration differs from the depth-first leaf order at position {} ({} yielded, {} leaf pages in the tree)", api, k + 1, got.len(), want.len())
+}
+
+pub fn check(doc: &Document, expect: Option<&[ObjectId]>) -> Fails {
+    let mut f: Fails = vec![];
+    let reach = if expect.is_none() { reachable(doc) } else { BTreeSet::new() };
+    let only_pages = |api: &str, seq: &[ObjectId], f: &mut Fails| {
+        for (k, id) in seq.iter().enumerate() {
+            if !is_page(doc, *id) {
+                f.push(("only-pages".into(), format!("{}: item {} is object {} {} which is not a page object (no dictionary with /Type /Page)", api, k + 1, id.0, id.1), ids_str(seq)));
+                return;
+            }
+            if !reach.contains(id) {
+                f.push(("only-pages".into(), format!("{}: item {} is object {} {} which does not occur in any Kids array under the root", api, k + 1, id.0, id.1), ids_str(seq)));
+                return;
+            }
+        }
+    };
+    // 1. the iterator, pulled by hand (no size_hint involved), with an item cap
+    let r = catch_unwind(AssertUnwindSafe(|| {
+        let mut v = vec![];
+        let mut capped = false;
+        for id in doc.page_iter() {
+            v.push(id);
+            if v.len() > ITEM_CAP { capped = true; break; }
+        }
+        (v, capped)
+    }));
+    let seq = match r {
+        Err(e) => { f.push(("no-panic".into(), format!("page_iter panicked: {}", pmsg(e)), "panic".into())); None }
+        Ok((v, true)) => { f.push(("terminates".into(), format!("page_iter yielded more than {} items", ITEM_CAP), ids_str(&v))); None }
+        Ok((v, false)) => Some(v),
+    };
+    if let Some(seq) = &seq {
+        match expect {
+            Some(w) => { if seq.as_slice() != w { f.push(("page-order".into(), order_detail("page_iter", seq, w), ids_str(seq))); } }
+            None => only_pages("page_iter", seq, &mut f),
+        }
+    }
+    // 2. get_pages: numbered 1..n
+    match catch_unwind(AssertUnwindSafe(|| doc.get_pages())) {
+        Err(e) => f.push(("no-panic".into(), format!("get_pages panicked: {}", pmsg(e)), "panic".into())),
+        Ok(m) => {
+            let keys: Vec<u32> = m.keys().cloned().collect();
+            let vals: Vec<ObjectId> = m.values().cloned().collect();
+            let contiguous = keys.iter().enumerate().all(|(i, k)| *k as usize == i + 1);
+            if !contiguous { f.push(("page-numbering".into(), "get_pages: page numbers are not exactly 1..n".into(), format!("{:?}", keys.iter().take(40).collect::<Vec<_>>()))); }
+            match expect {
+                Some(w) => { if vals.as_slice() != w { f.push(("page-numbering".into(), order_detail("get_pages", &vals, w), ids_str(&vals))); } }
+                None => {
+                    only_pages("get_pages", &vals, &mut f);
+                    if let Some(seq) = &seq { if &vals != seq { f.push(("page-numbering".into(), "get_pages: page number k is not the k-th item of page_iter".into(), ids_str(&vals))); } }
+                }
+            }
+        }
+    }
+    // 3. the iterator consumed by collect() (uses size_hint, which reads /Count)
+    match catch_unwind(AssertUnwindSafe(|| doc.page_iter().collect::<Vec<ObjectId>>())) {
+        Err(e) => f.push(("no-panic".into(), format!("page_iter().collect::<Vec<_>>() panicked: {}", pmsg(e)), "panic".into())),
+        Ok(v) => match expect {
+            Some(w) => { if v.as_slice() != w { f.push(("page-order".into(), order_detail("page_iter().collect()", &v, w), ids_str(&v))); } }
+            None => only_pages("page_iter().collect()", &v, &mut f),
+        },
+    }
+    f
+}
+
+// ---------------------------------------------------------------------------------------------------------
+// serialisation of a case (for failures, the child process and replay)
+// ---------------------------------------------------------------------------------------------------------
+pub fn case_json(c: &Case) -> Value {
+    json!({
+        "desc": c.desc,
+        "child": c.child,
+        "trailer": obj_json(&Object::Dictionary(c.doc.trailer.clone())),
+        "objects": c.doc.objects.iter().map(|(id, o)| json!({"id": id.0, "gen": id.1, "obj": obj_json(o)})).collect::<Vec<_>>(),
+        "expect": match &c.expect { Some(v) => json!(v.iter().map(|i| json!([i.0, i.1])).collect::<Vec<_>>()), None => Value::Null },
+    })
+}
+pub fn case_from_json(v: &Value) -> Case {
+    let mut doc = new_doc();
+    if let Object::Dictionary(t) = obj_from_json(&v["trailer"]) { doc.trailer = t; }
+    for e in v["objects"].as_array().cloned().unwrap_or_default() {
+        put(&mut doc, (e["id"].as_u64().unwrap_or(0) as u32, e["gen"].as_u64().unwrap_or(0) as u16), obj_from_json(&e["obj"]));
+    }
+    let expect = v["expect"].as_array().map(|a| a.iter().map(|p| (p[0].as_u64().unwrap_or(0) as u32, p[1].as_u64().unwrap_or(0) as u16)).collect());
+    Case { desc: v["desc"].as_str().unwrap_or("").to_string(), doc, expect, child: v["child"].as_bool().unwrap_or(false) }
+}
+
+// FAMILIES_BELOW
+
+// ---------------------------------------------------------------------------------------------------------
+// well-formed trees: strings over 'p' (page leaf) and '(' ... ')' (intermediate node); the string is the
+// Kids list of the root
+// ---------------------------------------------------------------------------------------------------------
+/// forests[n] = all forests with exactly n nodes (large Schroeder numbers: 1, 2, 6, 22, 90, 394, 1806, 8558, 41586, 206098)
+fn forests(max_n: usize) -> Vec<Vec<String>> {
+    let mut f: Vec<Vec<String>> = vec![vec![String::new()]];
+    for n in 1..=max_n {
+        let mut cur = vec![];
+        for s in 1..=n {
+            // first tree has s nodes, the rest is a forest of n - s nodes
+            let mut firsts: Vec<String> = vec![];
+            if s == 1 { firsts.push("p".into()); }
+            for inner in &f[s - 1] { firsts.push(format!("({})", inner)); }
+            for a in &firsts {
+                for b in &f[n - s] { cur.push(format!("{}{}", a, b)); }
+            }
+        }
+        f.push(cur);
+    }
+    f
+}
+
+struct Node { page: bool, kids: Vec<usize> }
+/// nodes in preorder; returns (nodes, kids of the root)
+fn parse_forest(s: &str) -> (Vec<Node>, Vec<usize>) {
+    let mut nodes: Vec<Node> = vec![];
+    let mut root: Vec<usize> = vec![];
+    let mut stack: Vec<usize> = vec![];
+    for c in s.bytes() {
+        match c {
+            b'p' | b'(' => {
+                let j = nodes.len();
+                nodes.push(Node { page: c == b'p', kids: vec![] });
+                match stack.last() { Some(&p) => nodes[p].kids.push(j), None => root.push(j) }
+                if c == b'(' { stack.push(j); }
+            }
+            b')' => { stack.pop(); }
+            _ => {}
+        }
+    }
+    (nodes, root)
+}
+
+pub const LAYOUTS: usize = 4;
+pub const KIDMODES: usize = 4;
+/// id of node j (preorder index) of n, of the root and of the catalog
+fn layout_ids(layout: usize, n: usize) -> (Vec<ObjectId>, ObjectId, ObjectId) {
+    let n32 = n as u32;
+    match layout {
+        // preorder ids
+        0 => ((0..n32).map(|j| (3 + j, 0)).collect(), (2, 0), (1, 0)),
+        // ids descend along the preorder, root and catalog have the largest ids
+        1 => ((0..n32).map(|j| (n32 - j, 0)).collect(), (n32 + 1, 0), (n32 + 2, 0)),
+        // sparse, scattered ids with generations 0, 1, 65535
+        2 => {
+            let m = (n.max(1)).next_power_of_two() as u64;
+            let gens = [0u16, 1, 65535];
+            ((0..n as u64).map(|j| ((100 + ((j * 7) % m) * 3) as u32, gens[(j % 3) as usize])).collect(), (7, 2), (50, 0))
+        }
+        // colliding object numbers: three nodes share a number and differ in generation; root and catalog share number 5
+        _ => ((0..n32).map(|j| (20 + j / 3, (j % 3) as u16)).collect(), (5, 0), (5, 1)),
+    }
+}
+
+/// how the Kids array of the k-th intermediate node (k = 0 is the root) is held
+fn kids_value(doc: &mut Document, mode: usize, k: usize, arr: Object) -> Object {
+    let base = 1_000_000 + 2 * k as u32;
+    let level = match mode { 0 => 0, 1 => 1, 2 => (k + 1) % 2, _ => if k % 2 == 0 { 2 } else { 0 } };
+    match level {
+        0 => arr,
+        1 => { put(doc, (base, 0), arr); r0(base) }
+        _ => { put(doc, (base, 0), arr); put(doc, (base + 1, 0), r0(base)); r0(base + 1) }
+    }
+}
+
+/// `counts`: None = correct /Count everywhere; Some(f) = f(k, correct) gives the /Count entry of the k-th intermediate node (None = absent)
+fn build_tree(s: &str, layout: usize, mode: usize, counts: Option<&dyn Fn(usize, i64, &mut Document) -> Option<Object>>) -> (Document, Vec<ObjectId>) {
+    let (nodes, rootkids) = parse_forest(s);
+    let n = nodes.len();
+    let (ids, root, cat) = layout_ids(layout, n);
+    let mut doc = new_doc();
+    // leaf counts, parents
+    let mut leaves = vec![0i64; n];
+    for j in (0..n).rev() { leaves[j] = if nodes[j].page { 1 } else { nodes[j].kids.iter().map(|&c| leaves[c]).sum() }; }
+    let mut parent = vec![root; n];
+    for j in 0..n { for &c in &nodes[j].kids { parent[c] = ids[j]; } }
+    let mut k = 0usize; // running index of intermediate nodes, root first
+    let count_obj = |k: usize, correct: i64, doc: &mut Document| match counts { None => Some(Object::Integer(correct)), Some(f) => f(k, correct, doc) };
+    let total: i64 = rootkids.iter().map(|&c| leaves[c]).sum();
+    let arr = refs(&rootkids.iter().map(|&c| ids[c]).collect::<Vec<_>>());
+    let kv = kids_value(&mut doc, mode, k, arr);
+    let mut rd = d(vec![("Type", nm("Pages")), ("Kids", kv)]);
+    if let Some(c) = count_obj(k, total, &mut doc) { rd.set("Count", c); }
+    put(&mut doc, root, Object::Dictionary(rd));
+    for j in 0..n {
+        if nodes[j].page {
+            put(&mut doc, ids[j], Object::Dictionary(d(vec![("Type", nm("Page")), ("Parent", rf(parent[j])), ("MediaBox", Object::Array(vec![0.into(), 0.into(), 10.into(), 10.into()]))])));
+        } else {
+            k += 1;
+            let arr = refs(&nodes[j].kids.iter().map(|&c| ids[c]).collect::<Vec<_>>());
+            let kv = kids_value(&mut doc, mode, k, arr);
+            let mut nd = d(vec![("Type", nm("Pages")), ("Parent", rf(parent[j])), ("Kids", kv)]);
+            if let Some(c) = count_obj(k, leaves[j], &mut doc) { nd.set("Count", c); }
+            put(&mut doc, ids[j], Object::Dictionary(nd));
+        }
+    }
+    put(&mut doc, cat, Object::Dictionary(d(vec![("Type", nm("Catalog")), ("Pages", rf(root))])));
+    doc.trailer.set("Root", rf(cat));
+    let expect: Vec<ObjectId> = (0..n).filter(|&j| nodes[j].page).map(|j| ids[j]).collect();
+    (doc, expect)
+}
+
+fn short(s: &str) -> String { if s.len() > 80 { format!("{}...({} chars)", &s[..60], s.len()) } else { s.to_string() } }
+
+fn wf_case(s: &str, layout: usize, mode: usize, via_file: bool) -> Case {
+    let (mut doc, expect) = build_tree(s, layout, mode, None);
+    let mut desc = format!("well-formed tree kids={} id-layout={} kids-mode={}", short(s), layout, mode);
+    if via_file {
+        desc.push_str(" via save+load_mem");
+        let mut bytes = vec![];
+        let loaded = catch_unwind(AssertUnwindSafe(|| { doc.save_to(&mut bytes).ok()?; Document::load_mem(&bytes).ok() }));
+        match loaded {
+            Ok(Some(l)) => doc = l,
+            _ => desc.push_str(" (save/load failed: checked in memory)"),
+        }
+    }
+    Case { desc, doc, expect: Some(expect), child: false }
+}
+
+// FAMILIES2_BELOW
+
+// ---------------------------------------------------------------------------------------------------------
+// deep and wide well-formed trees
+// ---------------------------------------------------------------------------------------------------------
+pub const DEEP_SHAPES: usize = 6;
+fn deep_string(shape: usize, dep: usize) -> String {
+    let (open, close) = match shape { 0 => ("(", ")"), 1 => ("(", ")p"), 2 => ("p(", ")"), 3 => ("p(", ")p"), 4 => ("(", ")()"), _ => ("()(", ")") };
+    format!("{}p{}", open.repeat(dep), close.repeat(dep))
+}
+fn deep_case(shape: usize, dep: usize, layout: usize, mode: usize) -> Case {
+    let s = deep_string(shape, dep);
+    let (doc, expect) = build_tree(&s, layout, mode, None);
+    let within = dep <= DEPTH_LIMIT;
+    Case { desc: format!("deep tree shape={} ({} levels of intermediate nodes below the root, {}) id-layout={} kids-mode={}", shape, dep, if within { "within the depth limit" } else { "beyond the depth limit: weak obligations only" }, layout, mode),
+           doc, expect: if within { Some(expect) } else { None }, child: false }
+}
+pub const FAN_PATTERNS: usize = 6;
+fn fan_string(pattern: usize, k: usize) -> String {
+    match pattern { 0 => "p".repeat(k), 1 => "p()".repeat(k), 2 => "(p)".repeat(k), 3 => format!("{}p", "()".repeat(k)), 4 => format!("({})", "p".repeat(k)), _ => "(p(p))".repeat(k) }
+}
+fn fan_case(pattern: usize, k: usize, layout: usize, mode: usize) -> Case {
+    let mut c = wf_case(&fan_string(pattern, k), layout, mode, false);
+    c.desc = format!("wide tree pattern={} fan-out={} id-layout={} kids-mode={}", pattern, k, layout, mode);
+    c
+}
+
+// ---------------------------------------------------------------------------------------------------------
+// malformed 1: reference graphs (cycles, shared nodes, dangling kids, the catalog as a kid)
+// catalog 1, root 2, slots 3..2+m; every slot is a page or an intermediate node with a Kids list over
+// { 1 0 R, 2 0 R, slots, 9 0 R (absent) }
+// ---------------------------------------------------------------------------------------------------------
+#[derive(Clone, Copy)]
+pub struct GraphFam { slots: usize, root_len: usize, node_len: usize }
+fn pow(b: u64, e: usize) -> u64 { (0..e).fold(1, |a, _| a * b) }
+fn lists_upto(t: u64, l: usize) -> u64 { (0..=l).map(|i| pow(t, i)).sum() }
+fn decode_list(mut idx: u64, t: u64, alphabet: &[u32]) -> Vec<u32> {
+    let mut len = 0;
+    while idx >= pow(t, len) { idx -= pow(t, len); len += 1; }
+    let mut v = vec![];
+    for _ in 0..len { v.push(alphabet[(idx % t) as usize]); idx /= t; }
+    v.reverse();
+    v
+}
+impl GraphFam {
+    fn alphabet(&self) -> Vec<u32> { let mut a: Vec<u32> = vec![1, 2]; a.extend((0..self.slots as u32).map(|i| 3 + i)); a.push(9); a }
+    fn count(&self) -> u64 {
+        let t = self.alphabet().len() as u64;
+        lists_upto(t, self.root_len) * pow(1 + lists_upto(t, self.node_len), self.slots)
+    }
+    fn case(&self, mut idx: u64) -> Case {
+        let a = self.alphabet();
+        let t = a.len() as u64;
+        let nr = lists_upto(t, self.root_len);
+        let opt = 1 + lists_upto(t, self.node_len);
+        let root = decode_list(idx % nr, t, &a);
+        idx /= nr;
+        let mut doc = new_doc();
+        let mut desc = format!("reference graph: root 2 Kids={:?}", root);
+        put(&mut doc, (1, 0), Object::Dictionary(d(vec![("Type", nm("Catalog")), ("Pages", r0(2))])));
+        put(&mut doc, (2, 0), Object::Dictionary(d(vec![("Type", nm("Pages")), ("Kids", Object::Array(root.iter().map(|&x| r0(x)).collect())), ("Count", 1.into())])));
+        for sidx in 0..self.slots {
+            let o = idx % opt;
+            idx /= opt;
+            let id = 3 + sidx as u32;
+            if o == 0 {
+                put(&mut doc, (id, 0), Object::Dictionary(d(vec![("Type", nm("Page")), ("Parent", r0(2))])));
+                desc.push_str(&format!("; {} page", id));
+            } else {
+                let l = decode_list(o - 1, t, &a);
+                desc.push_str(&format!("; {} Pages Kids={:?}", id, l));
+                put(&mut doc, (id, 0), Object::Dictionary(d(vec![("Type", nm("Pages")), ("Parent", r0(2)), ("Kids", Object::Array(l.iter().map(|&x| r0(x)).collect())), ("Count", 1.into())])));
+            }
+        }
+        desc.push_str(" (1 = catalog, 9 = absent)");
+        doc.trailer.set("Root", r0(1));
+        Case { desc, doc, expect: None, child: false }
+    }
+}
+
+// ---------------------------------------------------------------------------------------------------------
+// malformed 2: ill-typed / missing / unusual nodes as kids of the root, and unusual roots
+// ---------------------------------------------------------------------------------------------------------
+pub const KINDS: usize = 37;
+pub const ROOTS: usize = 13;
+const KIND_NAMES: [&str; KINDS] = ["page", "pages[page]", "pages[]", "dict-without-Type+Kids", "Type=/Font", "Type=7", "Type=(Page)string", "Type=/page", "Pages-without-Kids", "Pages-Kids=5",
+    "Pages-Kids->integer", "Pages-Kids->absent", "Pages-Kids=dict", "integer-object", "null-object", "array-object", "name-object-/Page", "stream-Type-Page", "stream-Type-Pages+Kids", "alias->page",
+    "alias->pages", "alias->itself", "alias-loop-of-2", "dangling-ref", "entry=null", "entry=integer", "entry=inline-page-dict", "entry=inline-pages-dict", "entry=array-of-refs", "ref-to-root",
+    "ref-to-catalog", "pages-containing-itself", "pages[root,page]", "second-ref-to-object-10", "page-with-Kids", "ref-with-wrong-generation", "alias-chain-of-200->page"];
+const ROOT_NAMES: [&str; ROOTS] = ["normal", "root-Kids-behind-ref", "root-without-Type", "root-Type-Page", "root-is-stream", "catalog-Pages-inline-dict", "catalog-Pages->alias->root", "trailer-without-Root",
+    "trailer-Root-inline-dict", "catalog-without-Type", "catalog-absent", "Pages-ref-absent", "catalog-is-the-root"];
+
+fn page_obj(parent: u32) -> Object { Object::Dictionary(d(vec![("Type", nm("Page")), ("Parent", r0(parent))])) }
+fn pages_obj(parent: u32, kids: Object) -> Object { Object::Dictionary(d(vec![("Type", nm("Pages")), ("Parent", r0(parent)), ("Kids", kids), ("Count", 1.into())])) }
+
+/// puts the objects of one kid at ids b.. and returns the entry for the root's Kids array
+fn kid_kind(doc: &mut Document, kind: usize, b: u32, root: u32, cat: u32) -> Object {
+    let one = |x: u32| Object::Array(vec![r0(x)]);
+    match kind {
+        0 => { put(doc, (b, 0), page_obj(root)); r0(b) }
+        1 => { put(doc, (b, 0), pages_obj(root, one(b + 1))); put(doc, (b + 1, 0), page_obj(b)); r0(b) }
+        2 => { put(doc, (b, 0), pages_obj(root, Object::Array(vec![]))); r0(b) }
+        3 => { put(doc, (b, 0), Object::Dictionary(d(vec![("Kids", one(b + 1))]))); put(doc, (b + 1, 0), page_obj(b)); r0(b) }
+        4 => { put(doc, (b, 0), Object::Dictionary(d(vec![("Type", nm("Font")), ("Kids", one(b + 1))]))); put(doc, (b + 1, 0), page_obj(b)); r0(b) }
+        5 => { put(doc, (b, 0), Object::Dictionary(d(vec![("Type", 7.into())]))); r0(b) }
+        6 => { put(doc, (b, 0), Object::Dictionary(d(vec![("Type", Object::string_literal("Page"))]))); r0(b) }
+        7 => { put(doc, (b, 0), Object::Dictionary(d(vec![("Type", nm("page"))]))); r0(b) }
+        8 => { put(doc, (b, 0), Object::Dictionary(d(vec![("Type", nm("Pages")), ("Count", 3.into())]))); r0(b) }
+        9 => { put(doc, (b, 0), pages_obj(root, 5.into())); r0(b) }
+        10 => { put(doc, (b, 0), pages_obj(root, r0(b + 1))); put(doc, (b + 1, 0), 5.into()); r0(b) }
+        11 => { put(doc, (b, 0), pages_obj(root, r0(b + 5))); r0(b) }
+        12 => { put(doc, (b, 0), pages_obj(root, Object::Dictionary(d(vec![("Type", nm("Page"))])))); r0(b) }
+        13 => { put(doc, (b, 0), 3.into()); r0(b) }
+        14 => { put(doc, (b, 0), Object::Null); r0(b) }
+        15 => { put(doc, (b, 0), one(b + 1)); put(doc, (b + 1, 0), page_obj(root)); r0(b) }
+        16 => { put(doc, (b, 0), nm("Page")); r0(b) }
+        17 => { put(doc, (b, 0), Object::Stream(Stream::new(d(vec![("Type", nm("Page"))]), b"q Q".to_vec()))); r0(b) }
+        18 => { put(doc, (b, 0), Object::Stream(Stream::new(d(vec![("Type", nm("Pages")), ("Kids", one(b + 1))]), vec![]))); put(doc, (b + 1, 0), page_obj(b)); r0(b) }
+        19 => { put(doc, (b, 0), r0(b + 1)); put(doc, (b + 1, 0), page_obj(root)); r0(b) }
+        20 => { put(doc, (b, 0), r0(b + 1)); put(doc, (b + 1, 0), pages_obj(root, one(b + 2))); put(doc, (b + 2, 0), page_obj(b + 1)); r0(b) }
+        21 => { put(doc, (b, 0), r0(b)); r0(b) }
+        22 => { put(doc, (b, 0), r0(b + 1)); put(doc, (b + 1, 0), r0(b)); r0(b) }
+        23 => r0(b),
+        24 => Object::Null,
+        25 => 4.into(),
+        26 => Object::Dictionary(d(vec![("Type", nm("Page")), ("Parent", r0(root))])),
+        27 => { put(doc, (b + 1, 0), page_obj(root)); Object::Dictionary(d(vec![("Type", nm("Pages")), ("Kids", one(b + 1))])) }
+        28 => { put(doc, (b + 1, 0), page_obj(root)); one(b + 1) }
+        29 => r0(root),
+        30 => r0(cat),
+        31 => { put(doc, (b, 0), pages_obj(root, one(b))); r0(b) }
+        32 => { put(doc, (b, 0), pages_obj(root, Object::Array(vec![r0(root), r0(b + 1)]))); put(doc, (b + 1, 0), page_obj(b)); r0(b) }
+        33 => r0(10),
+        34 => { put(doc, (b, 0), Object::Dictionary(d(vec![("Type", nm("Page")), ("Kids", one(b + 1))]))); put(doc, (b + 1, 0), page_obj(b)); r0(b) }
+        35 => { put(doc, (b, 0), page_obj(root)); rf((b, 1)) }
+        _ => {
+            // 200 aliases in a row (more than the library's dereference limit of 128), then a page
+            let base = 100_000 + b * 1000;
+            put(doc, (b, 0), r0(base));
+            for i in 0..200u32 { put(doc, (base + i, 0), r0(base + i + 1)); }
+            put(doc, (base + 200, 0), page_obj(root));
+            r0(b)
+        }
+    }
+}
+
+fn kinds_case(rootv: usize, kinds: &[usize]) -> Case {
+    let mut doc = new_doc();
+    let (cat, root) = (1u32, 2u32);
+    let mut entries = vec![];
+    for (i, &k) in kinds.iter().enumerate() { entries.push(kid_kind(&mut doc, k, 10 * (i as u32 + 1), root, cat)); }
+    let kids = Object::Array(entries);
+    let mut rootd = d(vec![("Type", nm("Pages")), ("Kids", kids.clone()), ("Count", (kinds.len() as i64).into())]);
+    let mut catd = d(vec![("Type", nm("Catalog")), ("Pages", r0(root))]);
+    doc.trailer.set("Root", r0(cat));
+    let mut put_cat = true;
+    let mut put_root = true;
+    let mut root_obj: Option<Object> = None;
+    match rootv {
+        0 => {}
+        1 => { put(&mut doc, (3, 0), kids.clone()); rootd.set("Kids", r0(3)); }
+        2 => { rootd.remove(b"Type"); }
+        3 => { rootd.set("Type", nm("Page")); }
+        4 => { root_obj = Some(Object::Stream(Stream::new(rootd.clone(), vec![]))); }
+        5 => { catd.set("Pages", Object::Dictionary(rootd.clone())); put_root = false; }
+        6 => { put(&mut doc, (4, 0), r0(root)); catd.set("Pages", r0(4)); }
+        7 => { doc.trailer.remove(b"Root"); }
+        8 => { doc.trailer.set("Root", Object::Dictionary(catd.clone())); put_cat = false; }
+        9 => { catd.remove(b"Type"); }
+        10 => { put_cat = false; }
+        11 => { put_root = false; }
+        _ => { rootd.set("Pages", r0(root)); doc.trailer.set("Root", r0(root)); put_cat = false; }
+    }
+    if put_root { put(&mut doc, (root, 0), root_obj.unwrap_or(Object::Dictionary(rootd))); }
+    if put_cat { put(&mut doc, (cat, 0), Object::Dictionary(catd)); }
+    let names: Vec<&str> = kinds.iter().map(|&k| KIND_NAMES[k]).collect();
+    Case { desc: format!("unusual nodes: root variant '{}', root Kids entries = {:?} (entry i owns ids 10*i..)", ROOT_NAMES[rootv], names), doc, expect: None, child: false }
+}
+
+// ---------------------------------------------------------------------------------------------------------
+// malformed 3: wrong /Count entries on otherwise well-formed trees
+// ---------------------------------------------------------------------------------------------------------
+pub const SMALL_COUNTS: usize = 11;
+const BIG_COUNTS: [i64; 5] = [1 << 31, 10_000_000_000, 500_000_000_000_000_000, i64::MAX, -1]; // -1 here = i64::MAX held behind a reference
+fn count_variant(v: usize, k: usize, correct: i64, doc: &mut Document) -> Option<Object> {
+    match v {
+        0 => None,
+        1 => Some(0.into()),
+        2 => Some((-1).into()),
+        3 => Some((correct + 1).into()),
+        4 => Some((correct - 1).into()),
+        5 => Some(1000.into()),
+        6 => Some(Object::Real(correct as f32 + 0.5)),
+        7 => Some(nm("Many")),
+        8 => { put(doc, (2_000_000 + k as u32, 0), correct.into()); Some(r0(2_000_000 + k as u32)) }
+        9 => Some(r0(2_999_999)),
+        _ => Some(i64::MIN.into()),
+    }
+}
+/// target: 0 = every intermediate node, t > 0 = only the (t-1)-th intermediate node (root = 0)
+fn counts_case(s: &str, variant: usize, target: usize, mode: usize) -> Case {
+    let f = move |k: usize, correct: i64, doc: &mut Document| -> Option<Object> {
+        if target == 0 || target - 1 == k { count_variant(variant, k, correct, doc) } else { Some(correct.into()) }
+    };
+    let (doc, _) = build_tree(s, 0, mode, Some(&f));
+    Case { desc: format!("wrong Count: tree kids={} variant={} on {} kids-mode={}", s, ["absent", "0", "-1", "correct+1", "correct-1", "1000", "real", "name", "ref->correct", "ref->absent", "i64::MIN"][variant], if target == 0 { "every intermediate node".to_string() } else { format!("intermediate node #{} (root = #0)", target - 1) }, mode),
+           doc, expect: None, child: false }
+}
+fn big_counts_case(s: &str, big: usize, target: usize) -> Case {
+    let val = BIG_COUNTS[big];
+    let f = move |k: usize, correct: i64, doc: &mut Document| -> Option<Object> {
+        if target == 0 || target - 1 == k {
+            if val < 0 { put(doc, (2_000_000 + k as u32, 0), i64::MAX.into()); Some(r0(2_000_000 + k as u32)) } else { Some(val.into()) }
+        } else { Some(correct.into()) }
+    };
+    let (doc, _) = build_tree(s, 0, 0, Some(&f));
+    Case { desc: format!("huge Count: tree kids={} Count={} on {}", s, if val < 0 { "reference to 9223372036854775807".to_string() } else { val.to_string() }, if target == 0 { "every intermediate node".to_string() } else { format!("intermediate node #{} (root = #0)", target - 1) }),
+           doc, expect: None, child: true }
+}
+
+// RUNNER_BELOW
